@@ -16,12 +16,12 @@ import (
 // C02 No value creation.
 
 type c02Oracle struct {
-	obs          Obs
-	blocks       int
-	okTxs        int
-	hostileOK    int
-	rewardBlocks int
-	supplyAddrs  map[string]bool
+	obs            Obs
+	blocks         int
+	okTxs          int
+	hostileOK      int
+	rewardBlocks   int
+	supplyAddrs    map[string]bool
 	skippedWrapped int
 }
 
